@@ -565,6 +565,9 @@ func (e *engine) eval() error {
 		if err := e.mergeDelta(); err != nil {
 			return err
 		}
+		// Counts the facts that the incremental rounds created, including those that a merge
+		// predicate replaced or discarded (these never show in the size of the store).
+		createdInRounds := 0
 		for {
 			newDeltaStore := factstore.NewMultiIndexedArrayInMemoryStore()
 			var newTemporalDeltaStore factstore.TemporalFactStore
@@ -603,6 +606,10 @@ func (e *engine) eval() error {
 						return fmt.Errorf("fact size limit reached evaluating %q %d > %d", deltaRule.String(), newDeltaStore.EstimateFactCount(), e.options.createdFactLimit)
 					}
 				}
+			}
+			createdInRounds += newDeltaStore.EstimateFactCount()
+			if e.options.createdFactLimit > 0 && createdInRounds > e.options.createdFactLimit {
+				return fmt.Errorf("fact size limit reached %d > %d", createdInRounds, e.options.createdFactLimit)
 			}
 			// Install the new delta before merging, so that the delta is always
 			// contained in the store when the delta rules run in the next round.
